@@ -2,7 +2,7 @@ import daemon
 
 
 def run(ctx):
-    return daemon.run(ctx, "C05", "c05", {"crash", "crash_inside_request", "probe", "sigkill", "detach", "db_write_fault"}, [
+    return daemon.run(ctx, "C05", "c05", {"crash", "crash_inside_request", "probe", "sigkill", "detach", "db_write_fault", "dual_stack"}, [
         "crash points: after the pod lookup, before/after every cloud call of the pool, before/after every Put/Delete; at each of them a probe "
         "restarts a second daemon from copies and asks for an address for every pod; armed crash points and kills additionally continue the history",
         "a crash in the middle of a bolt write is sampled by SIGKILL of a child process streaming Put/Delete through the real storage, not enumerated",
